@@ -43,7 +43,7 @@ func pipelineOf(p *Prog, fn *ssa.Function) []pipeStep {
 	var steps []pipeStep
 	for _, cl := range Calls(fn) {
 		cal := cl.Common().StaticCallee()
-		if cal == nil || !p.InModule(cal) || !strings.HasPrefix(cal.Name(), "validate") {
+		if cal == nil || !p.InModule(cal) || !strings.HasPrefix(fnName(cal), "validate") {
 			continue
 		}
 		d := p.ReachCond(cl.Block())
@@ -56,10 +56,10 @@ func pipelineOf(p *Prog, fn *ssa.Function) []pipeStep {
 			switch {
 			case a.Rel == "!=" && a.R.IsNil() && a.L.Kind == "param":
 				gs["dictionary-present"] = true
-			case a.Rel == "" && a.Val && a.B.Kind == "field" && a.B.Field.Name() == "RejectInvalidMessage":
+			case a.Rel == "" && a.Val && a.B.Kind == "field" && cn(a.B.Field) == "RejectInvalidMessage":
 				gs["RejectInvalidMessage"] = true
 			case a.Rel == "" && a.B.Kind == "field":
-				gs[fmt.Sprintf("%s=%v", a.B.Field.Name(), a.Val)] = true
+				gs[fmt.Sprintf("%s=%v", cn(a.B.Field), a.Val)] = true
 			}
 		}
 		var g []string
@@ -94,7 +94,7 @@ func c15R1(c *Ctx) {
 		roots = append(roots, v)
 		for _, cl := range Calls(v) {
 			cal := cl.Common().StaticCallee()
-			if cal != nil && p.InModule(cal) && strings.HasPrefix(cal.Name(), "validate") && !seenFn[cal] {
+			if cal != nil && p.InModule(cal) && strings.HasPrefix(fnName(cal), "validate") && !seenFn[cal] {
 				seenFn[cal] = true
 				pipes = append(pipes, pipelineOf(p, cal))
 				names = append(names, FuncName(cal))
@@ -141,7 +141,7 @@ func c15R1(c *Ctx) {
 		reach[i] = p.Reachable([]*ssa.Function{r}, false)
 	}
 	for _, fn := range p.FuncsIn(modPath) {
-		if !strings.HasPrefix(fn.Name(), "validate") || fn.Signature.Recv() != nil || fn.Parent() != nil {
+		if !strings.HasPrefix(fnName(fn), "validate") || fn.Signature.Recv() != nil || fn.Parent() != nil {
 			continue
 		}
 		if fn.Signature.Results().Len() == 0 || typeName(fn.Signature.Results().At(fn.Signature.Results().Len()-1).Type()) != "MessageRejectError" {
@@ -372,7 +372,7 @@ func c15R4(c *Ctx) {
 			return false
 		}
 		for _, cl := range Calls(fn) {
-			if cal := cl.Common().StaticCallee(); cal != nil && (strings.HasPrefix(cal.Name(), "NewMessageRejectError") || strings.HasPrefix(cal.Name(), "NewBusinessMessageRejectError")) {
+			if cal := cl.Common().StaticCallee(); cal != nil && (strings.HasPrefix(fnName(cal), "NewMessageRejectError") || strings.HasPrefix(fnName(cal), "NewBusinessMessageRejectError")) {
 				return true
 			}
 		}
@@ -391,7 +391,7 @@ func c15R4(c *Ctx) {
 	}
 	n := 0
 	for _, fn := range p.FuncsIn(modPath) {
-		if !strings.HasPrefix(fn.Name(), "validate") {
+		if !strings.HasPrefix(fnName(fn), "validate") {
 			continue
 		}
 		for _, cl := range Calls(fn) {
@@ -406,7 +406,7 @@ func c15R4(c *Ctx) {
 			ok := false
 			cands := map[string]bool{arg.String(): true}
 			base := arg
-			if base.Kind == "field" && base.Field.Name() == "tag" && base.Base != nil {
+			if base.Kind == "field" && cn(base.Field) == "tag" && base.Base != nil {
 				base = base.Base
 				cands[base.String()] = true
 			}
@@ -456,7 +456,7 @@ func c15R4(c *Ctx) {
 		}
 		for _, cl := range Calls(fn) {
 			cal := cl.Common().StaticCallee()
-			if cal == nil || !(strings.HasPrefix(cal.Name(), "NewMessageRejectError") || strings.HasPrefix(cal.Name(), "NewBusinessMessageRejectError")) {
+			if cal == nil || !(strings.HasPrefix(fnName(cal), "NewMessageRejectError") || strings.HasPrefix(fnName(cal), "NewBusinessMessageRejectError")) {
 				continue
 			}
 			args := cl.Common().Args
